@@ -394,11 +394,17 @@ def bytes_eq(ctx, a, b, node=None):
     # symbolic length: single array segments only
     la, lb = a.length(), b.length()
     if len(a.segs) == 1 and len(b.segs) == 1 and a.segs[0][0] == 'a' and b.segs[0][0] == 'a':
-        k = z3.Int(fresh_name('k'))
         sa, sb = a.segs[0], b.segs[0]
-        return z3.And(la == lb, z3.ForAll([k], z3.Implies(
-            z3.And(k >= 0, k < la),
-            z3.Select(sa[1], sa[2] + k) == z3.Select(sb[1], sb[2] + k))))
+        # memoised per pair of slices, so that the code's comparison and a contract's guard
+        # are the SAME term (two quantifiers differing in the bound name are different terms)
+        key = tuple(z3.simplify(x).get_id() for x in (sa[1], sa[2], sa[3], sb[1], sb[2], sb[3]))
+        memo = ctx.ghost.setdefault('$bytes_eq', {})
+        if key not in memo:
+            k = z3.Int('k$%d' % len(memo))
+            memo[key] = z3.And(la == lb, z3.ForAll([k], z3.Implies(
+                z3.And(k >= 0, k < la),
+                z3.Select(sa[1], sa[2] + k) == z3.Select(sb[1], sb[2] + k))))
+        return memo[key]
     if na is not None or nb is not None:
         # one concrete, one symbolic: lengths equal and elementwise on the concrete length
         n = na if na is not None else nb
